@@ -108,6 +108,13 @@ CLAIMED = {
          "(amounts>=0, Release<=reserved, UpdateSize<=maxSize). Outside: clamping in GetSystemReqs (floating point), OS liveness, "
          "remote manager goroutines.",
          "DESIGN.md §4 C12"),
+ "C19": ("Partial (reference rewriting of rename edits): the real updateRef/updateRefInExp on references with symbolic ids, output paths and "
+         "old/new names, and RenameCallable with its edits applied to a hand-built pipeline AST (argument, nested-output, disabled, return and "
+         "retain references; alias collision; reverse rename). The solver shows every reference that named the renamed call still names it, "
+         "nothing else changes, and X->Y->X restores the names.",
+         "Trusted: go/ssa, symgo, z3, the fixed AST shape. Outside: re-formatting and recompiling, call-graph equality, removal edits, "
+         "input/output renames across files.",
+         "DESIGN.md §4 C19"),
  "C18": ("Every byte string up to the stated length (quick 4, thorough 5 bytes; formatArgs 2+1+1 / 2+2+1) is pushed "
          "symbolically through the real appendShellSafeQuote/shellSafeQuote/formatArgs and a POSIX double-quote "
          "reference de-quoter; the solver shows on every path that sh recovers the original bytes, or returns the bytes "
